@@ -10,22 +10,38 @@ from props import clientsim as cs
 LEVEL = "proof"
 
 
-def one_history(ctx, rng_label, n_ops, kind="plain", idx=0, ops=None, fresh=True):
+def one_history(ctx, rng_label, n_ops, kind="plain", idx=0, ops=None, fresh=True, output_grid=False):
     rng = ctx.rng(rng_label)
     if ops is None:
         ops = cs.gen_history(rng, n_ops)
-    case = {"session": kind, "ops": cs.ops_json(ops), "label": rng_label}
-    sim = cs.Sim(kind)
+    case = {"session": kind, "ops": cs.ops_json(ops), "label": rng_label, "output_grid": output_grid}
+    sim = cs.Sim(kind, output_grid=output_grid)
     hr = cs.HistoryRun(ctx, sim, ops, case).run()
     if fresh and not hr.failed:
         hr.fresh_equiv()
     kinds = sorted(set(o[0] if o[0] != "derive" else o[2][0] for o in ops))
     n_der = len([o for o in ops if o[0] == "derive"])
-    ctx.count((kind, repr(ops)), n_der > 0, tag="%s:ops=%d:derivations=%d" % (kind, len(ops), min(n_der, 4)),
+    n_grid = len([o for o in ops if o[0] in ("grid", "gsub", "gmap", "gvar")])
+    ctx.count((kind, output_grid, repr(ops)), n_der > 0 or n_grid > 0,
+              tag="%s:ops=%d:derivations=%d:gridreads=%d:output_grid=%s" % (kind, len(ops), min(n_der, 4), min(n_grid, 4),
+                                                                           output_grid),
               sample={"ops": cs.ops_json(ops)[:4], "events": len(sim.tr.events)})
     for k in kinds:
         ctx.tags["op:" + k] += 1
     return sim, hr, case
+
+
+def _fix_targets(ops):
+    """after shuffling, make sequence derivations / reads refer to live objects that exist at that point"""
+    out, live = [], 1
+    for o in ops:
+        if o[0] == "derive":
+            o = ("derive", o[1] % live, o[2])
+            live += 1
+        elif o[0] == "read":
+            o = ("read", o[1] % live)
+        out.append(o)
+    return out
 
 
 FIXED = [
@@ -45,6 +61,21 @@ def explore(ctx, tier, search=False):
     for label, ops in todo:
         rng = ctx.rng(label + "/len")
         sim, hr, case = one_history(ctx, label, rng.randint(1, 8), ops=ops)
+        cases.append((sim.model_line(), sim.impl_output(), case))
+    # traced grid histories: the opened grid with output_grid on (the DAPHandler default: array *and* maps are
+    # requested) and off, its maps read on their own, grids returned by earlier reads indexed again, mixed with
+    # sequence derivations; every BaseType / GridType / proxy object is snapshotted after every event
+    ng = 40 if (tier == "quick" and not search) else 1000
+    for i in range(ng):
+        label = "gh/%d" % i
+        rng = ctx.rng(label)
+        ops = cs.gen_grid_ops(rng, rng.randint(1, 6))
+        if i % 4 == 3:
+            ops = ops + cs.gen_history(rng, rng.randint(1, 3))
+            rng.shuffle(ops)
+            ops = [o for o in ops if o[0] != "derive"] if False else ops
+        ops = _fix_targets(ops)
+        sim, hr, case = one_history(ctx, label, 0, ops=ops, output_grid=(i % 3 != 2), fresh=False)
         cases.append((sim.model_line(), sim.impl_output(), case))
     ctx.correspond("proxy heap: observables of all live objects after every event + GET log", cases)
 
@@ -220,7 +251,7 @@ def replay(payload):
             print(fl["what"], "observed", fl["observed"], "expected", fl["expected"])
         return ok
     ops = cs.ops_unjson(c["ops"])
-    sim = cs.Sim(c.get("session", "plain"))
+    sim = cs.Sim(c.get("session", "plain"), output_grid=c.get("output_grid", False))
     hr = cs.HistoryRun(ctx, sim, ops, c).run()
     if not hr.failed:
         hr.fresh_equiv()
